@@ -20,6 +20,10 @@ pub struct Snip {
 /// overload signatures, abstract members: functions and methods **without a body**), unusual class members, modern
 /// operators, module forms.  One program each; they are also mixed into recombined programs.
 pub const ODDITIES: &[&str] = &[
+  "function dec(o: unknown) { return (..._: unknown[]) => {}; }\nexport class Dk1 { @dec({ get name() { return \"y\"; } }) y = 1; @dec({ get n() { } }) static z = 2; @dec({ get m() { return 1; } }) w; }",
+  "function dec(o: unknown) { return (..._: unknown[]) => {}; }\n@dec({ get c() { return 1; } }) class Dk2 { @dec(() => { switch (1) { case 1: f(); case 2: g(); } }) m() {} @dec({ get a() { return 1; } }) accessor q = 1; constructor(@dec({ get p() { return 2; } }) x: number) {} }",
+  "const dk1 = { get a() { return 1; }, get a() { return 2; }, set b(v) {}, set b(v) {}, get c() { return 1; }, get c() { return 3; }, d: 1, d: 2, set e(v) {}, get e() { return 1; }, set e(w) {} };",
+  "class Dk3 { a() {} a() {} b() {} b() {} get c() { return 1; } get c() { return 2; } static d() {} static d() {} }\nfunction dk4(a, b, a, c, b, c) {}\nswitch (x) { case 1: case 2: case 1: case 2: case 3: case 3: break; }",
   "class Sq1 extends B { constructor(e) { super(e), this.init(e); } }",
   "class Sq2 extends B { constructor(e) { super(e) || fail(e); const t = `${this.x}${log(e)}`; } }",
   "class Sq3 extends B { constructor(e) { super() ? ok(e) : no(e, f(e)); this.m(g(h(e))); } }",
@@ -303,8 +307,12 @@ pub fn gen_fix_program(rng: &mut Rng) -> (String, String) {
         1 => ("no-node-globals", "const e = Buffer.from(\"x\"); f(Buffer);".to_string(), "Buffer"),
         _ => ("no-node-globals", "setImmediate(() => {}); clearImmediate(1);".to_string(), "setImmediate"),
       };
-      let src = match rng.below(11) {
+      let src = match rng.below(14) {
         0 => use_,
+        // the character right after the last import is not one byte long
+        11 => format!("import a from \"b\";\u{3000}{}", use_),
+        12 => format!("import a from \"b\";\u{a0}// c\n{}", use_),
+        13 => format!("import a from \"b\"\u{2028}{}", use_),
         1 => format!("import a from \"b\";\n{}", use_),
         2 => format!("import a from \"b\"; /* the entry point\n of the tool */\n{}", use_),
         3 => format!("import a from \"b\"; const usage = `\n ${{a}} ${{{}}}\n`;", g),
@@ -437,7 +445,7 @@ pub fn run(args: &Args) {
       ("no-unused-vars".to_string(), format!("{}{}\n{}\n{}\n", pr, IMPORTS[crng.below(IMPORTS.len())], JSX_BODIES[crng.below(JSX_BODIES.len())], JSX_BODIES[crng.below(JSX_BODIES.len())]))
     } else if want("C13") && !props.is_empty() && case_no % 2 == 1 {
       gen_fix_program(&mut crng)
-    } else if want("C02") && !props.is_empty() && case_no % 4 == 1 {
+    } else if (want("C02") || want("C03") || want("C04")) && !props.is_empty() && case_no % 4 == 1 {
       // fixes are part of the result that must not vary between calls
       gen_fix_program(&mut crng)
     } else if case_no % 11 == 5 {
@@ -464,8 +472,10 @@ pub fn run(args: &Args) {
       // volume: more than a hundred diagnostics of early rules before the program (and a non-ASCII tail), for
       // anything that behaves differently under load
       out.count("shape=volume");
-      let line = ["debugger;", "var v = 1;", "eval(\"x\");", "x == y;", "if (a) {} else {}", "new Symbol();", "for (;;) {}", "let u;"][crng.below(8)];
-      let k = crng.range(110, 171);
+      // (the last four make a rule stop the traversal below a node, hundreds of times over)
+      let line = ["debugger;", "var v = 1;", "eval(\"x\");", "x == y;", "if (a) {} else {}", "new Symbol();", "for (;;) {}", "let u;", "declare const snake_case_name: number;",
+        "async function outer_fn() { function inner() {} }", "class Dv extends Bv { constructor() { super(); f(1); g(2); } }", "declare function decl_fn(a_b: number): void;"][crng.below(12)];
+      let k = if crng.chance(1, 3) { crng.range(520, 700) } else { crng.range(110, 171) };
       (rule, format!("{}\n{}\nconst nonAscii = \"é→\";\n", std::iter::repeat(line).take(k).collect::<Vec<_>>().join("\n"), src))
     } else if crng.chance(1, 4) || (FIX_RULES.contains(&rule.as_str()) && crng.chance(1, 2)) {
       // exotic white space between tokens: every separator the lexer accepts must do, also multi-byte ones
